@@ -158,10 +158,11 @@ Proof.
     + apply IH; auto.
 Qed.
 
-Lemma discover_unfold : forall c t r l p a v h ss,
-  discover (MFn c t r l p a v h ss) =
-  Fn c t r l p a false
-     (BCons (Body (vars_of v) (exts_of v h) (steps_of (stmts_steps discover (read_names v) 0 [salt_name] ss))) BNil).
+Lemma discover_unfold : forall c t r l p a k v h ss,
+  discover (MFn c t r l p a k v h ss) =
+  Fn c t r l p a k
+     (BCons (Body (vars_of v) (exts_of v h) (steps_of (stmts_steps discover (read_names v) 0 [salt_name] ss)))
+            (if k then BCons get_body BNil else BNil)).
 Proof. reflexivity. Qed.
 
 Lemma disc_vars_eq : forall f, disc_vars f = vars_of (mfn_modvars f).
@@ -252,8 +253,18 @@ Theorem discover_preserves_text : forall f,
   fn_lines (discover f) = mfn_lines f /\ fn_params (discover f) = mfn_params f /\
   fn_annot (discover f) = mfn_annot f /\ fn_tag (discover f) = mfn_tag f /\
   fn_raises (discover f) = mfn_raises f /\ fn_name (discover f) = mfn_cname f /\
-  fn_is_class (discover f) = false.
+  fn_is_class (discover f) = mfn_is_class f.
 Proof. destruct f. rewrite discover_unfold. simpl. repeat split. Qed.
+
+(* a function has one body; a class has two, one per method in source order: the statements are those of __init__,
+   and `get` (which only mentions `self`) has no variable, no external name and no interaction *)
+Theorem discover_bodies : forall f,
+  fn_bodies (discover f) =
+  BCons (Body (disc_vars f) (disc_exts f) (steps_of (disc_steps f)))
+        (if mfn_is_class f then BCons (Body [] [] SNil) BNil else BNil).
+Proof.
+  intros f. rewrite disc_steps_eq. destruct f. rewrite discover_unfold. reflexivity.
+Qed.
 
 (* ------------------------------------------------------------------ interactions, without the threaded set *)
 
@@ -614,8 +625,8 @@ Proof.
     destruct (IH g' H3) as [h [Hr Hk]]. exists h. split; [|exact Hk]. eapply MR_step; eauto.
 Qed.
 
-(* every function of the analysis tree is a plain function with a single body (the generated grammar has no
-   classes); proved with the nested induction principle of the syntax *)
+(* a tree without classes: every function of the analysis tree is a plain function with a single body; proved with
+   the nested induction principle of the syntax *)
 Fixpoint plain_fn (f : fn) : bool :=
   match f with
   | Fn _ _ _ _ _ _ c b => negb c && match b with BCons bd BNil => plain_body bd | _ => false end
@@ -634,20 +645,105 @@ Lemma plain_steps_app : forall a b,
   plain_steps (steps_of (a ++ b)) = plain_steps (steps_of a) && plain_steps (steps_of b).
 Proof. induction a as [|x a IH]; intros b; simpl; auto. rewrite IH, andb_assoc. reflexivity. Qed.
 
-Theorem discover_plain : forall f, plain_fn (discover f) = true.
+(* no class is written anywhere in the syntax tree *)
+Fixpoint mfn_no_class (f : mfn) : bool :=
+  match f with
+  | MFn _ _ _ _ _ _ k _ _ ss =>
+    negb k && forallb (fun s => match s with
+                                | MCall _ _ g _ | MApply _ _ g | MKeep _ _ _ _ _ g _ _ => mfn_no_class g
+                                | MLoad _ => true
+                                end) ss
+  end.
+
+Theorem discover_plain : forall f, mfn_no_class f = true -> plain_fn (discover f) = true.
 Proof.
-  apply (mfn_ind' (fun f => plain_fn (discover f) = true)
-                  (fun s => forall g, mstmt_callee s = Some g -> plain_fn (discover g) = true)).
-  - intros c t r l p a v h ss HF. rewrite discover_unfold. cbn [plain_fn plain_body negb andb].
+  apply (mfn_ind' (fun f => mfn_no_class f = true -> plain_fn (discover f) = true)
+                  (fun s => forall g, mstmt_callee s = Some g -> mfn_no_class g = true -> plain_fn (discover g) = true)).
+  - intros c t r l p a k v h ss HF NC. cbn [mfn_no_class] in NC. apply andb_true_iff in NC. destruct NC as [Hk NC].
+    destruct k; [discriminate|]. rewrite discover_unfold. cbn [plain_fn plain_body negb andb].
     generalize 0 [salt_name] (read_names v). induction HF as [|s ss Hs HF IH]; intros i seen names; [reflexivity|].
-    cbn [stmts_steps]. rewrite plain_steps_app, IH, andb_true_r.
+    cbn [forallb] in NC. apply andb_true_iff in NC. destruct NC as [NCs NC].
+    cbn [stmts_steps]. rewrite plain_steps_app, (IH NC), andb_true_r.
     destruct s as [line sp g args | line sp g | line eline rl path sp g pos kw | q]; unfold stmt_steps; cbn [fst].
-    + simpl. rewrite (Hs g eq_refl). reflexivity.
-    + destruct (name_in (sp_head sp) (logmod_name :: xname i :: seen)); simpl; rewrite (Hs g eq_refl); reflexivity.
-    + destruct (name_in (sp_head sp) (dds_name :: xname i :: seen)); simpl; rewrite (Hs g eq_refl); reflexivity.
+    + simpl. rewrite (Hs g eq_refl NCs). reflexivity.
+    + destruct (name_in (sp_head sp) (logmod_name :: xname i :: seen)); simpl; rewrite (Hs g eq_refl NCs); reflexivity.
+    + destruct (name_in (sp_head sp) (dds_name :: xname i :: seen)); simpl; rewrite (Hs g eq_refl NCs); reflexivity.
     + reflexivity.
   - intros line sp g args H g' E. injection E as E. subst. exact H.
   - intros line sp g H g' E. injection E as E. subst. exact H.
   - intros line eline rl path sp g pos kw H g' E. injection E as E. subst. exact H.
   - intros path g' E. discriminate.
 Qed.
+
+(* in general: every node of the analysis tree is either a plain function with a single body, or a class with
+   exactly two bodies of which the second (`get`) is empty *)
+Fixpoint shaped_fn (f : fn) : bool :=
+  match f with
+  | Fn _ _ _ _ _ _ c b =>
+    match b with
+    | BCons bd BNil => negb c && shaped_body bd
+    | BCons bd (BCons (Body [] [] SNil) BNil) => c && shaped_body bd
+    | _ => false
+    end
+  end
+with shaped_body (b : body) : bool :=
+  match b with Body _ _ s => shaped_steps s end
+with shaped_steps (s : steps) : bool :=
+  match s with SNil => true | SCons x r => shaped_step x && shaped_steps r end
+with shaped_step (s : step) : bool :=
+  match s with
+  | SCall _ _ g _ | SRef _ g _ | SApply g | SKeep _ _ _ g _ _ => shaped_fn g
+  | SLoad _ => true
+  end.
+
+Lemma shaped_steps_app : forall a b,
+  shaped_steps (steps_of (a ++ b)) = shaped_steps (steps_of a) && shaped_steps (steps_of b).
+Proof. induction a as [|x a IH]; intros b; simpl; auto. rewrite IH, andb_assoc. reflexivity. Qed.
+
+Theorem discover_shaped : forall f, shaped_fn (discover f) = true.
+Proof.
+  apply (mfn_ind' (fun f => shaped_fn (discover f) = true)
+                  (fun s => forall g, mstmt_callee s = Some g -> shaped_fn (discover g) = true)).
+  - intros c t r l p a k v h ss HF. rewrite discover_unfold.
+    assert (E : shaped_steps (steps_of (stmts_steps discover (read_names v) 0 [salt_name] ss)) = true).
+    { generalize 0 [salt_name] (read_names v). induction HF as [|s ss Hs HF IH]; intros i seen names; [reflexivity|].
+      cbn [stmts_steps]. rewrite shaped_steps_app, IH, andb_true_r.
+      destruct s as [line sp g args | line sp g | line eline rl path sp g pos kw | q]; unfold stmt_steps; cbn [fst].
+      + simpl. rewrite (Hs g eq_refl). reflexivity.
+      + destruct (name_in (sp_head sp) (logmod_name :: xname i :: seen)); simpl; rewrite (Hs g eq_refl); reflexivity.
+      + destruct (name_in (sp_head sp) (dds_name :: xname i :: seen)); simpl; rewrite (Hs g eq_refl); reflexivity.
+      + reflexivity. }
+    destruct k; cbn [shaped_fn shaped_body get_body negb andb]; exact E.
+  - intros line sp g args H g' E. injection E as E. subst. exact H.
+  - intros line sp g H g' E. injection E as E. subst. exact H.
+  - intros line eline rl path sp g pos kw H g' E. injection E as E. subst. exact H.
+  - intros path g' E. discriminate.
+Qed.
+
+(* a tree without classes is a special case *)
+Lemma plain_shaped :
+  (forall f, plain_fn f = true -> shaped_fn f = true) /\
+  (forall bs, match bs with BCons bd BNil => plain_body bd = true -> shaped_body bd = true | _ => True end) /\
+  (forall b, plain_body b = true -> shaped_body b = true) /\
+  (forall s, plain_steps s = true -> shaped_steps s = true) /\
+  (forall s, plain_step s = true -> shaped_step s = true).
+Proof.
+  apply prog_mutind.
+  - intros n t r l p a c b IH H. cbn [plain_fn] in H. apply andb_true_iff in H. destruct H as [Hc H].
+    destruct c; [discriminate|]. destruct b as [|bd [|? ?]]; try discriminate.
+    cbn [shaped_fn negb andb]. apply IH. exact H.
+  - exact I.
+  - intros bd IHb r _. destruct r; [exact IHb | exact I].
+  - intros v e s IH H. cbn [plain_body shaped_body] in *. auto.
+  - reflexivity.
+  - intros x IHx r IHr H. cbn [plain_steps shaped_steps] in *. apply andb_true_iff in H. destruct H as [H1 H2].
+    rewrite IHx, IHr; auto.
+  - intros l e g IH a H. cbn [plain_step shaped_step] in *. auto.
+  - intros l g IH x H. cbn [plain_step shaped_step] in *. auto.
+  - intros g IH H. cbn [plain_step shaped_step] in *. auto.
+  - intros l e p g IH a k H. cbn [plain_step shaped_step] in *. auto.
+  - reflexivity.
+Qed.
+
+Theorem plain_fn_shaped : forall f, plain_fn f = true -> shaped_fn f = true.
+Proof. exact (proj1 plain_shaped). Qed.
